@@ -39,7 +39,7 @@ STUBS = [
     "FakeAsyncioTransport for the asyncio adapter",
 ]
 ASSUMPTIONS = ["a wrapped transport counts as released when its aclose() has been invoked (the in-memory transport is closed from that moment)"]
-BOUNDS = {"quick": "one cancellation at iteration k in 1..8 (and two cancellations k < k2 in 1..6), faults per wrapped transport out of {none, OSError, RuntimeError}, close suspensions 1-2", "thorough": "k up to 12 / 10"}
+BOUNDS = {"quick": "one cancellation at iteration k in 1..8 (and two cancellations k < k2 in 1..6), faults per wrapped transport out of {none, OSError, RuntimeError}, close suspensions 1-2; concurrent sender stalled for 1/3/40 iterations (close-busy); connection attempt taking 1-3 iterations, close starting 0-3 iterations into it (aclient-connecting); TLS wrap: silent peer or local handshake failure, wrapped send failing / stalling 0 or 3 iterations", "thorough": "k up to 12 / 10"}
 OUTSIDE = "real sockets, real OpenSSL shutdown, trio"
 
 FAULTS = [lambda: None, lambda: OSError(104, "reset"), lambda: RuntimeError("boom")]  # fresh exception objects per path
